@@ -15,13 +15,15 @@ def io_replay(res):
     """Native confirmation: a hard read error injected at every offset of a corpus of inputs must come back as an I/O error
     (never a value, never EOF / syntax)."""
     corpus = [b"(a b c)", b"#(1 2)", b"\"str\\x41;\"", b"  ; comment\n 42", b"#u8(1 2)", b"'(a . b)", b"#\\space x", b"12.5e3 ",
-              b"-17 foo", b"(a ;c\n b)", b"#:kw", b"[a . b]", b"`(,a ,@b)"]
+              b"-17 foo", b"(a ;c\n b)", b"#:kw", b"[a . b]", b"`(,a ,@b)", b"\xce\xbbx y", b"#\\\xce\xbb z", b"(\xf0\x9f\x98\x80)",
+              b"\"\xce\xbb\\x3bb;\"", (b"?\xce\xbb ?\\\xce\xbb", "elisp"), (b"\"\\101\xce\xbb\\u00e9\"", "elisp"), (b"[?a :k \"s\\^a\"]", "elisp")]
 
     def f(m):
-        for text in corpus:
-            full = RP.single(text, "default", "reader")
+        for item in corpus:
+            text, opts = item if isinstance(item, tuple) else (item, "default")
+            full = RP.single(text, opts, "reader")
             for p in range(len(text) + 1):
-                nat = RP.single(text, "default", "reader", fail_at=p)
+                nat = RP.single(text, opts, "reader", fail_at=p)
                 res.replays += 1
                 # an error at offset p matters only if the parser reads that far: compare with the result on the prefix
                 if "err" in nat and nat["err"]["cat"] == "io":
@@ -31,11 +33,11 @@ def io_replay(res):
                     continue
                 if nat == full:
                     # the parser finished before touching offset p? only possible for trailing positions it never reads
-                    pre = RP.single(text[:p], "default", "reader")
+                    pre = RP.single(text[:p], opts, "reader")
                     if pre == full:
                         continue
                 return {"replayed": True, "observed": {"fail_at": p, "got": nat},
-                        "witness": {"kind": "parse", "input_hex": text.hex(), "opts": "default", "src": "reader", "api": "single",
+                        "witness": {"kind": "parse", "input_hex": text.hex(), "opts": opts, "src": "reader", "api": "single",
                                     "fast": True, "fail_at": p}}
         return {"replayed": False}
     return f
